@@ -50,7 +50,9 @@ func c14ConstInt(e ast.Expr, consts map[string]int64) (int64, error) {
 	return 0, fmt.Errorf("construct not in the supported subset: constant expression")
 }
 
-func c14FileConst(f *ast.File, name string) (int64, error) {
+func c14FileConst(f *ast.File, name string) (int64, error) { return c14FileConstWith(f, name, nil) }
+
+func c14FileConstWith(f *ast.File, name string, consts map[string]int64) (int64, error) {
 	for _, d := range f.Decls {
 		gd, ok := d.(*ast.GenDecl)
 		if !ok || gd.Tok != token.CONST {
@@ -60,7 +62,7 @@ func c14FileConst(f *ast.File, name string) (int64, error) {
 			vs := s.(*ast.ValueSpec)
 			for i, n := range vs.Names {
 				if n.Name == name && i < len(vs.Values) {
-					return c14ConstInt(vs.Values[i], nil)
+					return c14ConstInt(vs.Values[i], consts)
 				}
 			}
 		}
@@ -121,7 +123,16 @@ func init() {
 		if err != nil {
 			return "", err
 		}
-		maxMsg, err := c14FileConst(wal, "maxMsgSizeBytes")
+		// the reactor's bound on a peer message (same package): the WAL bound is defined from it
+		reactor, err := e.parse("consensus/reactor.go")
+		if err != nil {
+			return "", err
+		}
+		reactorMax, err := c14FileConst(reactor, "maxMsgSize")
+		if err != nil {
+			return "", err
+		}
+		maxMsg, err := c14FileConstWith(wal, "maxMsgSizeBytes", map[string]int64{"maxMsgSize": reactorMax})
 		if err != nil {
 			return "", err
 		}
@@ -167,6 +178,33 @@ func init() {
 			}
 			return true
 		})
+		// Encode refuses length > maxMsgSizeBytes (returns an error) before anything is handed to the writer
+		var encLenCheck token.Pos = -1
+		ast.Inspect(enc.Body, func(n ast.Node) bool {
+			ifs, ok := n.(*ast.IfStmt)
+			if !ok {
+				return true
+			}
+			be, ok := ifs.Cond.(*ast.BinaryExpr)
+			if !ok {
+				return true
+			}
+			ret := false
+			for _, st := range ifs.Body.List {
+				if r, ok := st.(*ast.ReturnStmt); ok && len(r.Results) == 1 && c14Sel(r.Results[0]) != "nil" {
+					ret = true
+				}
+			}
+			if be.Op == token.GTR && c14Sel(be.X) == "length" && c14Sel(be.Y) == "maxMsgSizeBytes" && ret && encLenCheck < 0 {
+				encLenCheck = ifs.Pos()
+			}
+			return true
+		})
+		encWrite := c14FirstCall(enc, "wr.Write")
+		if encWrite < 0 {
+			return "", fmt.Errorf("anchor call not found: enc.wr.Write in WALEncoder.Encode")
+		}
+		encChecksLen := encLenCheck >= 0 && encLenCheck < encWrite
 		crcFirst := len(puts) == 2 && ((puts[0] == "msg[0:4]=crc" && puts[1] == "msg[4:8]=length") || (puts[1] == "msg[0:4]=crc" && puts[0] == "msg[4:8]=length"))
 		// --- Decode: length bound and checksum comparison before ser.DecodeBytes
 		dec, err := e.funcDecl("consensus/wal.go", "WALDecoder", "Decode")
@@ -211,10 +249,14 @@ func init() {
 			fact{"WalFacts", "const", "headBufSize", bufSize, e.pos(og)},
 			fact{"WalFacts", "callorder", "rotateFlushesBeforeRename", rotateFlushes, e.pos(rf)},
 			fact{"WalFacts", "callorder", "encoderCrcThenLength", crcFirst, e.pos(enc)},
+			fact{"WalFacts", "const", "reactorMaxMsgSize", reactorMax, "consensus/reactor.go"},
+			fact{"WalFacts", "callorder", "encoderChecksLength", encChecksLen, e.pos(enc)},
 			fact{"WalFacts", "callorder", "decoderChecksLength", decChecksLen, e.pos(dec)},
 			fact{"WalFacts", "callorder", "decoderChecksCrcBeforeDecode", decChecksCrc, e.pos(dec)})
 		var sb strings.Builder
 		fmt.Fprintf(&sb, "/-- `consensus/wal.go` const maxMsgSizeBytes -/\ndef maxMsgSizeBytes : Nat := %d\n\n", maxMsg)
+		fmt.Fprintf(&sb, "/-- `consensus/reactor.go` const maxMsgSize: the largest peer message the consensus reactor accepts -/\ndef reactorMaxMsgSize : Nat := %d\n\n", reactorMax)
+		fmt.Fprintf(&sb, "/-- `%s` returns an error for length > maxMsgSizeBytes before the record reaches the writer -/\ndef encoderChecksLength : Bool := %s\n\n", e.pos(enc), leanBool(encChecksLen))
 		fmt.Fprintf(&sb, "/-- `%s` size of the head bufio.Writer -/\ndef headBufSize : Nat := %d\n\n", e.pos(og), bufSize)
 		fmt.Fprintf(&sb, "/-- `%s` calls headBuf.Flush before os.Rename -/\ndef rotateFlushesBeforeRename : Bool := %s\n\n", e.pos(rf), leanBool(rotateFlushes))
 		fmt.Fprintf(&sb, "/-- `%s` writes crc at msg[0:4] and length at msg[4:8] -/\ndef encoderCrcThenLength : Bool := %s\n\n", e.pos(enc), leanBool(crcFirst))
